@@ -7,7 +7,9 @@ import (
 	"fmt"
 	"os"
 	"path/filepath"
+	"runtime/debug"
 	"sort"
+	"strings"
 	"time"
 
 	"github.com/go-gts/gts"
@@ -58,8 +60,23 @@ type Run struct {
 	exhaustive bool
 }
 
+// crumb notes, in a file that survives the process, the case the implementation is about to be
+// run on: when the real code takes the whole process down (fatal runtime error: out of memory,
+// stack exhaustion, os.Exit) bin/check finds the input there and re-runs it alone.
+var crumbFile *os.File
+
+var lastCrumb string
+
+func crumb(line string) {
+	lastCrumb = line
+	if crumbFile != nil {
+		crumbFile.WriteAt([]byte(line+"\n"), 0)
+	}
+}
+
 // op sends a protocol line to both sides and returns the implementation's answer.
 func (r *Run) op(line string) string {
+	crumb(line)
 	out := execOp(line)
 	r.ops.WriteString(line)
 	r.ops.WriteByte('\n')
@@ -152,11 +169,32 @@ func main() {
 	if err != nil {
 		panic(err)
 	}
+	crumbFile, _ = os.Create(filepath.Join(*out, "current.op"))
 	r := &Run{prop: *prop, tier: *tier, seed: *seed, rng: newRng(uint64(*seed)),
 		ops: bufio.NewWriterSize(opsF, 1<<20), impl: bufio.NewWriterSize(implF, 1<<20),
 		nontrivial: map[string]struct{}{}, hist: map[string]int{}}
 	t0 := time.Now()
-	f(r)
+	func() {
+		// an oracle that calls the real code directly (outside a protocol op, hence outside
+		// execOp's recover) and meets a Go panic: reported as a failure with the case at hand
+		defer func() {
+			if e := recover(); e != nil {
+				var frames []string
+				for _, l := range strings.Split(string(debug.Stack()), "\n") {
+					if strings.Contains(l, "go-gts/gts") && !strings.Contains(l, "verif/harness") {
+						frames = append(frames, strings.TrimSpace(l))
+					}
+					if len(frames) >= 6 {
+						break
+					}
+				}
+				r.fail(Failure{Oracle: "never a panic: the real code panicked while the harness evaluated it on the case at hand (" + fmt.Sprint(e) + ")",
+					Op: lastCrumb, Got: "PANIC " + strings.Join(frames, " | "), Want: "a value or an error value"})
+				r.notes = append(r.notes, "run cut short by a panic of the implementation inside an oracle")
+			}
+		}()
+		f(r)
+	}()
 	r.ops.Flush()
 	r.impl.Flush()
 	opsF.Close()
